@@ -29,9 +29,10 @@ T = {
             "who-may-call over the resolved call graph + box-safety tags on Iterate constructions",
             "premise x0 in bounds; numpy comparison/assignment semantics trusted"),
     "C06": ("partial: no certain crash (call arity / keywords of resolved callees, attributes of certain receiver types) in code reachable "
-            "from the entry points, and a complete inventory of reachable raise sites classified deliberate / internal-signal (contained) / "
-            "abstract / configuration",
-            "arity check over resolved call sites + exception-flow inventory",
+            "from the entry points, a complete inventory of reachable raise sites classified deliberate / internal-signal (contained) / "
+            "abstract / configuration, no local read on a path on which it is unbound (definite assignment), guarded reductions and "
+            "log-controller domain, shape agreement of the recorded path with the result, restore pipeline order",
+            "arity check over resolved call sites + exception-flow inventory + definite-assignment dataflow",
             "reachability of data-dependent asserts, overflow and finiteness of results are not decided"),
     "C07": ("claimed: exception-flow fixed point shows LinearSolverError cannot leave any step solver, none of the three internal failure "
             "classes can leave compute_step / solve; failure results keep the iterate, are not accepted and shrink the step; accepted "
@@ -42,8 +43,9 @@ T = {
             "state change, only the accepted iterate reaches the result, mid-step deadline is a contained failed step",
             "who-may-read / value-use analysis + loop-body flow + exception flow",
             "bit equality of prefixes itself follows with C10 and is not evaluated"),
-    "C09": ("claimed (effect analysis): observer regions (display / DEBUG / collect_path / report_rcond / callbacks) write no algorithm "
-            "state, feed nothing back into decisions, cannot raise into the solve, and use private randomness and clocks",
+    "C09": ("claimed (effect analysis): observer regions (display / DEBUG / collect_path / report_rcond / callbacks, in both solver classes) "
+            "write no algorithm state, feed nothing back into decisions, cannot raise into the solve (math-domain errors included), use "
+            "private randomness and clocks; property getters store nothing on their object",
             "observer-region effect analysis + exception containment",
             "user callbacks are the user's code; data-dependent asserts in the condition estimator are listed as undecided"),
     "C10": ("claimed (state-carrier inventory): no mutable module state, shared default Params never written, penalty / controller / display / "
@@ -63,7 +65,8 @@ T = {
             "polynomial normal forms (non-commutative atoms) compared with oracle formulas",
             "floating-point agreement with a dense reference is not decided"),
     "C14": ("partial (sibling agreement): same Hessian multiplier in every update_derivs, same elimination constants and back substitution, "
-            "refresh schedule of the Newton variants, dispatch exhaustiveness of the factories",
+            "refresh schedule and constructor pass-through of the Newton variants, dispatch exhaustiveness of the factories, ascending index "
+            "sets shared by matrix rows and right-hand side, asymmetric row format",
             "partial evaluation + rational normal forms + sibling cross-check",
             "numerical equality of the computed steps is not decided"),
     "C15": ("partial: failure and rejection paths shrink the step by a literal factor > 1 (or lamb_inc) and keep the iterate; lambda chaining "
@@ -82,9 +85,10 @@ T = {
             "against the statement; pairwise non-domination follows by the recorded induction; penalty coupling and the solver's veto",
             "semantic extraction of a comparison-only algorithm + induction",
             "a re-implementation outside the recognised forms yields ANALYSIS-ERROR, never a verdict"),
-    "C19": ("partial: the derivative check is non-interfering (stores only to locals, perturbs a copy, result unused, runs before the timer and "
-            "the loop), pinpoint wiring (same index perturbs, selects the column and is reported; same triple and predicate in trigger and "
-            "diagnosis), all three derivative kinds covered",
+    "C19": ("partial: the derivative check is non-interfering (stores only to locals, perturbs a copy, result unused, nothing bound under the "
+            "option, runs before the timer and the loop), pinpoint wiring (same index perturbs, selects the column and is reported; same "
+            "triple and predicate in trigger and diagnosis), all three derivative kinds covered at the checked point, evaluators hand on "
+            "the user's values unchanged, the transformed problem scales value / gradient / Hessian consistently (C04's rules)",
             "effect analysis + index/argument wiring over the AST",
             "finite-difference tolerance behaviour is not decided"),
     "C20": ("partial: normalising exponent forms (1 - frexp exponent, sign conventions, accumulator agreement), dtype lattice (no float "
